@@ -4,7 +4,7 @@ import LaytheVerif.Model.Repl
 
 ```
 entry 0|1 [0|1]           start an entry (arguments: the parser accepts the line; the compiler proper does, default 1)
-decls a b | refs print a | fun NAME op... | script op... | calls f g      (ops: g:NAME s:NAME p i)
+decls a b | refs print a | fun NAME op... | script op... | calls f g      (ops: g:NAME s:NAME p i o; o = implicit superclass of a parent-less class)
 end                       compile + run the entry in the session state, print one line
 reset                     forget the session
 ```
@@ -28,6 +28,7 @@ def globalsList : List String :=
 def parseOp (w : String) : Option Op :=
   if w = "p" then some .prop
   else if w = "i" then some .invoke
+  else if w = "o" then some .super
   else if w.startsWith "g:" then some (.get (w.drop 2).toString)
   else if w.startsWith "s:" then some (.set (w.drop 2).toString)
   else none
